@@ -15,8 +15,8 @@ from __future__ import annotations
 
 from vcore import native
 
-LEX_PROPS = ("C02", "C05", "C06", "C07", "C08", "C12", "C13", "C15")
-GRAM_PROPS = ("C02", "C05", "C06", "C07", "C08", "C11", "C12", "C13", "C15", "C03", "C10")     # = links_gram.PROPS_ALL
+LEX_PROPS = ("C02", "C05", "C06", "C07", "C08", "C09", "C12", "C13", "C15")
+GRAM_PROPS = ("C02", "C05", "C06", "C07", "C08", "C09", "C11", "C12", "C13", "C15", "C03", "C10")     # = links_gram.PROPS_ALL
 
 ASSUMPTIONS = [
     "sly driver loops: proved per ITERATION (step contracts sly.lex.Lexer.tokenize/step#*, sly.yacc.Parser.parse/step#*); "
